@@ -45,3 +45,472 @@ inline const char *selftest_rfc8032_test1024_msg_hex() {
         ;
 }
 
+// ---------------------------------------------------------------- bigint
+inline void selftest_bigint(T &t) {
+    SelftestLcg rng(1);
+    // constants, cross-checked against their well-known hexadecimal forms
+    t.ok("p hex", P25519() == u_from_hex("7fffffffffffffffffffffffffffffffffffffffffffffffffffffffffffffed"));
+    t.ok("L hex", L25519() == u_from_hex("1000000000000000000000000000000014def9dea2f79cd65812631a5cf5d3ed"));
+    t.eqh("L le bytes", u_to_le(L25519(), 32), "edd3f55c1a631258d69cf7a2def9de1400000000000000000000000000000010");
+    t.ok("from_dec", u_from_dec("18446744073709551616") == u_shl(U(1), 64));
+    t.ok("to_hex", u_to_hex(u_from_dec("4886718345")) == "0123456789");
+    t.ok("bitlen", u_bitlen(U(0)) == 0 && u_bitlen(U(1)) == 1 && u_bitlen(P25519()) == 255 && u_bitlen(L25519()) == 253);
+    t.ok("small powmod", u_powmod(U(3), U(200), U(1000007)) == U(ref::u_low64(u_powmod(U(3), U(200), U(1000007)))) && u_powmod(U(2), U(10), U(1000)) == U(24));
+    t.ok("small invmod", u_mulmod(u_invmod_prime(U(12345), U(1000003)), U(12345), U(1000003)) == U(1));
+    {
+        bool borrow = false;
+        U d = u_sub(U(5), U(7), &borrow);
+        t.ok("sub borrow", borrow && u_add(d, U(7)) == U(5));
+        u_sub(U(7), U(5), &borrow);
+        t.ok("sub no borrow", !borrow);
+    }
+    U q, r;
+    t.ok("div by zero", !u_divmod(U(5), U(0), q, r) && u_is_zero(q) && u_is_zero(r));
+    for (int i = 0; i < 40; i++) {
+        U a = u_from_le(rng.bytes(64)), b = u_from_le(rng.bytes(32)), m = u_from_le(rng.bytes(1 + rng.byte() % 32));
+        if (u_is_zero(m)) m = U(7);
+        // shifts
+        int n = rng.byte() % 100;
+        t.ok("shl/shr", u_shr(u_shl(a, n), n) == a && u_add(u_shl(u_shr(a, n), n), u_low_bits(a, n)) == a);
+        // a = q*m + r, r < m
+        u_divmod(a, m, q, r);
+        t.ok("divmod", u_cmp(r, m) < 0 && u_add(u_mul(q, m), r) == a);
+        // byte round trips
+        t.ok("le round trip", u_from_le(u_to_le(a, 64)) == a);
+        Bytes be = u_to_le(a, 64);
+        be = Bytes(be.rbegin(), be.rend());
+        t.ok("be", u_from_be(be) == a);
+        // generic reduction vs folding reduction mod p, on 512-bit and on 640-bit values
+        t.ok("fp_red 512", u_mod(a, P25519()) == fp_red(a));
+        U wide = u_from_le(rng.bytes(80));
+        t.ok("fp_red 640", u_mod(wide, P25519()) == fp_red(wide));
+        t.ok("fp_mul", u_mulmod(a, b, P25519()) == fp_mul(fp_red(a), b));
+        t.ok("fp_add", u_addmod(a, b, P25519()) == fp_add(fp_red(a), b));
+        t.ok("fp_sub", u_submod(a, b, P25519()) == fp_sub(fp_red(a), b));
+        // L arithmetic
+        U am = u_mod(a, L25519()), bm = u_mod(b, L25519());
+        t.ok("L sub/add", u_addmod(u_submod(am, bm, L25519()), bm, L25519()) == am);
+    }
+    // values near p
+    for (uint64_t k = 0; k < 40; k++) {
+        U v = u_add(u_sub(P25519(), U(20)), U(k));
+        t.ok("fp_red near p", u_mod(v, P25519()) == fp_red(v));
+        U v2 = u_add(u_sub(u_shl(U(1), 256), U(40)), U(k));
+        t.ok("fp_red near 2^256", u_mod(v2, P25519()) == fp_red(v2));
+    }
+    {
+        U a = u_from_le(rng.bytes(32));
+        t.ok("fp_inv", fp_mul(fp_inv(a), a) == U(1) && u_invmod_prime(a, P25519()) == fp_inv(a));
+        t.ok("fp_inv 0", u_is_zero(fp_inv(U(0))));
+        t.ok("fp_pow", u_powmod(a, U(1000003), P25519()) == fp_pow(a, U(1000003)));
+        t.ok("sqrt(-1)", fp_sq(FP_SQRT_M1()) == fp_neg(U(1)) && !fp_is_odd(FP_SQRT_M1()));
+        t.ok("sqrt(-1) value", FP_SQRT_M1() == u_from_dec("19681161376707505956807079304988542015446066515923890162744021073123829784752"));
+        U sq = fp_sq(a), root;
+        t.ok("fp_sqrt", fp_sqrt(sq, root) && fp_sq(root) == sq && fp_is_square(sq));
+        t.ok("fp_sqrt nonsquare", !fp_sqrt(U(2), root) && !fp_is_square(U(2)));  // 2 is a non-square mod p
+        U li = u_invmod_prime(a, L25519());
+        t.ok("L inv", u_mulmod(li, a, L25519()) == U(1));
+    }
+}
+
+// ---------------------------------------------------------------- X25519 (RFC 7748)
+inline void selftest_x25519(T &t) {
+    // section 5.2, the two single vectors
+    t.eqh("rfc7748 5.2 #1",
+          x25519(from_hex("a546e36bf0527c9d3b16154b82465edd62144c0ac1fc5a18506a2244ba449ac4"), from_hex("e6db6867583030db3594c1a424b15f7c726624ec26b3353b10a903a6d0ab1c4c")),
+          "c3da55379de9c6908e94ea4df28d084f32eccf03491c71f754b4075577a28552");
+    // (this u-coordinate has bit 255 set: checks the masking)
+    t.eqh("rfc7748 5.2 #2",
+          x25519(from_hex("4b66e9d4d1b4673c5ad22691957d6af5c11b6421e0ea01d42ca4169e7918ba0d"), from_hex("e5210f12786811d3f4b7959d0538ae2c31dbe7106fc03c3efc4cd549c715a493")),
+          "95cbde9476e8907d7aade45cb4b873f88b595a68799fa152e6f8f7647aac7957");
+    // section 5.2, iterated: k = u = 9; then (k, u) <- (X25519(k, u), k)
+    {
+        Bytes k(32, 0), u(32, 0);
+        k[0] = u[0] = 9;
+        for (int i = 1; i <= REF_SELFTEST_X25519_ITERS; i++) {
+            Bytes r = x25519(k, u);
+            u = k;
+            k = r;
+            if (i == 1) t.eqh("rfc7748 iter 1", k, "422c8e7a6227d7bca1350b3e2bb7279f7897b87bb6854b783c60e80311ae3079");
+            if (i == 1000) t.eqh("rfc7748 iter 1000", k, "684cf59ba83309552800ef566f2f4d3c1c3887c49360e3875f2eb94d99532c51");
+        }
+    }
+    // section 6.1 Diffie-Hellman
+    Bytes a = from_hex("77076d0a7318a57d3c16c17251b26645df4c2f87ebc0992ab177fba51db92c2a");
+    Bytes b = from_hex("5dab087e624a8a4b79e17f8b83800ee66f3bb1292618b6fd1c2f8b27ff88e0eb");
+    Bytes A = x25519_base(a), B = x25519_base(b);
+    t.eqh("rfc7748 6.1 A", A, "8520f0098930a754748b7ddcb43ef75a0dbf3a0d26381af4eba4a98eaa9b4e6a");
+    t.eqh("rfc7748 6.1 B", B, "de9edb7d7b7dc1b4d35b61c2ece435373f8343c85b78674dadfc7e146f882b4f");
+    t.eqh("rfc7748 6.1 K (a,B)", x25519(a, B), "4a5d9d5ba4ce2de1728e3bf480350f25e07e21c947d19e3376f09b3c1e161742");
+    t.eqh("rfc7748 6.1 K (b,A)", x25519(b, A), "4a5d9d5ba4ce2de1728e3bf480350f25e07e21c947d19e3376f09b3c1e161742");
+    // non-canonical u is reduced mod p: u = p + 9 behaves as 9; u = p behaves as 0 (all-zero output)
+    t.eq("non-canonical u", x25519(a, u_to_le(u_add(P25519(), U(9)), 32)), A);
+    t.ok("u = p -> zero", is_all_zero(x25519(a, u_to_le(P25519(), 32))) && is_all_zero(x25519(a, Bytes(32, 0))));
+    t.ok("is_all_zero", is_all_zero(Bytes(5, 0)) && !is_all_zero(A) && is_all_zero(Bytes()));
+    t.ok("bad length", x25519(Bytes(31, 1), B).empty() && x25519(a, Bytes(33, 1)).empty());
+}
+
+// ---------------------------------------------------------------- edwards25519 group + Ed25519 (RFC 8032)
+inline void selftest_ed25519_case(T &t, const char *name, const char *seed_hex, const char *pk_hex, const char *msg_hex, const char *sig_hex) {
+    Bytes seed = from_hex(seed_hex), msg = from_hex(msg_hex), pk, sk;
+    ed25519_seed_keypair(seed, pk, sk);
+    t.eqh((std::string(name) + " pk").c_str(), pk, pk_hex);
+    t.eq((std::string(name) + " sk").c_str(), sk, cat(seed, from_hex(pk_hex)));
+    Bytes sig = ed25519_sign(msg, sk);
+    t.eqh((std::string(name) + " sig").c_str(), sig, sig_hex);
+    t.eq((std::string(name) + " sig from seed only").c_str(), ed25519_sign(msg, seed), sig);
+    VerifyInfo vi = ed25519_verify_info(sig, msg, pk);
+    t.ok((std::string(name) + " verify").c_str(),
+         vi.len_ok && vi.s_canonical && vi.pk_canonical && vi.pk_decodes && !vi.pk_small_order && vi.r_decodes && vi.r_canonical && !vi.r_small_order &&
+             !vi.pk_neg_zero && !vi.r_neg_zero && vi.cofactored_eq && vi.cofactorless_eq);
+    Bytes bad = msg;
+    bad.push_back(0);
+    VerifyInfo vb = ed25519_verify_info(sig, bad, pk);
+    t.ok((std::string(name) + " verify other msg").c_str(), !vb.cofactored_eq && !vb.cofactorless_eq);
+}
+
+inline void selftest_ed25519(T &t) {
+    SelftestLcg rng(2);
+    const Pt &B = ED_B();
+    // constants as printed in RFC 8032 section 5.1
+    t.ok("d", ED_D() == u_from_dec("37095705934669439343138083508754565189542113879843219016388785533085940283555"));
+    t.ok("B.x", B.x == u_from_dec("15112221349535400772501151409588531511454012693041857206046113283949847762202"));
+    t.ok("B.y", B.y == u_from_dec("46316835694926478169428394003475163141307993866256225615783033603165251855960"));
+    t.eqh("B enc", pt_encode(B), "5866666666666666666666666666666666666666666666666666666666666666");
+    t.ok("B on curve", pt_on_curve(B) && pt_on_curve(Pt()) && !pt_on_curve(Pt(U(1), U(2))));
+    t.ok("L*B = 0", pt_is_identity(pt_mul(L25519(), B)) && pt_in_prime_subgroup(B) && !pt_has_small_order(B));
+    t.ok("(L-1)*B = -B", pt_eq(pt_mul(u_sub(L25519(), U(1)), B), pt_neg(B)));
+    t.ok("order class B", pt_order_class(B) == 101 && pt_order_class(Pt()) == 1);
+    // group law sanity: small multiples by repeated affine addition vs pt_mul
+    {
+        Pt acc;
+        bool ok = true;
+        for (uint64_t k = 0; k < 20; k++) {
+            ok = ok && pt_eq(acc, pt_mul(U(k), B)) && pt_on_curve(acc);
+            acc = pt_add(acc, B);
+        }
+        t.ok("k*B small k", ok);
+        t.ok("double", pt_eq(pt_double(B), pt_mul(U(2), B)));
+    }
+    // extended-coordinate double-and-add vs purely affine double-and-add, on a random point and random 256/512-bit k
+    {
+        Pt P = pt_mul(u_from_le(rng.bytes(32)), B);
+        U k1 = u_from_le(rng.bytes(32)), k2 = u_from_le(rng.bytes(64));
+        t.ok("pt_mul vs affine (256)", pt_eq(pt_mul(k1, P), pt_mul_affine(k1, P)));
+        t.ok("pt_mul 512-bit k = k mod L", pt_eq(pt_mul(k2, P), pt_mul(sc_reduce(k2), P)));
+        t.ok("distributive", pt_eq(pt_mul(sc_add(k1, k2), P), pt_add(pt_mul(k1, P), pt_mul(k2, P))));
+        t.ok("P - P", pt_is_identity(pt_sub(P, P)) && pt_is_identity(pt_add(P, pt_neg(P))));
+        Bytes e = pt_encode(P);
+        Pt Q;
+        bool canon = false;
+        t.ok("encode/decode", pt_decode(e, Q, canon) && canon && pt_eq(P, Q) && pt_decode_strict(e, Q));
+    }
+    // torsion subgroup
+    {
+        const std::vector<Pt> &tp = torsion_points();
+        bool ok = tp.size() == 8;
+        for (size_t i = 0; ok && i < 8; i++) {
+            ok = ok && pt_on_curve(tp[i]) && pt_is_identity(pt_mul(U(8), tp[i])) && pt_has_small_order(tp[i]);
+            for (size_t j = 0; j < i; j++) ok = ok && !pt_eq(tp[i], tp[j]);
+        }
+        t.ok("8 distinct torsion points", ok);
+        t.ok("torsion orders", ok && pt_order_class(tp[0]) == 1 && pt_order_class(tp[4]) == 2 && pt_order_class(tp[2]) == 4 && pt_order_class(tp[6]) == 4 &&
+                                   pt_order_class(tp[1]) == 8 && pt_order_class(tp[3]) == 8 && pt_order_class(tp[5]) == 8 && pt_order_class(tp[7]) == 8);
+        t.ok("order 2 point is (0,-1)", ok && pt_eq(tp[4], Pt(U(0), fp_neg(U(1)))));
+        t.ok("order 4 points are (+-sqrt(-1), 0)", ok && u_is_zero(tp[2].y) && u_is_zero(tp[6].y) && (tp[2].x == FP_SQRT_M1() || tp[6].x == FP_SQRT_M1()));
+        // the set of encodings must be the well-known list of small-order encodings
+        const char *known[8] = { "0100000000000000000000000000000000000000000000000000000000000000", "ecffffffffffffffffffffffffffffffffffffffffffffffffffffffffffff7f",
+                                 "0000000000000000000000000000000000000000000000000000000000000000", "0000000000000000000000000000000000000000000000000000000000000080",
+                                 "26e8958fc2b227b045c3f489f2ef98f0d5dfac05d3c63339b13802886d53fc05", "26e8958fc2b227b045c3f489f2ef98f0d5dfac05d3c63339b13802886d53fc85",
+                                 "c7176a703d4dd84fba3c0b760d10670f2a2053fa2c39ccc64ec7fd7792ac037a", "c7176a703d4dd84fba3c0b760d10670f2a2053fa2c39ccc64ec7fd7792ac03fa" };
+        int found = 0;
+        for (int i = 0; i < 8; i++)
+            for (size_t j = 0; ok && j < 8; j++)
+                if (pt_encode(tp[j]) == from_hex(known[i])) found++;
+        t.ok("torsion encodings", found == 8);
+        // mixed-order points
+        Pt m = pt_add(B, tp[1]);
+        t.ok("B + T8: order 8L", ok && pt_on_curve(m) && pt_order_class(m) == 108 && !pt_in_prime_subgroup(m) && !pt_has_small_order(m) && pt_torsion_order(m) == 8);
+        t.ok("B + T2: order 2L", ok && pt_order_class(pt_add(B, tp[4])) == 102);
+        t.ok("B + T4: order 4L", ok && pt_order_class(pt_add(B, tp[2])) == 104);
+    }
+    // decoding flags
+    {
+        // (a) non-canonical y: y_raw = p + 1 encodes y = 1 -> the identity
+        Dec d = pt_decode_ex(u_to_le(u_add(P25519(), U(1)), 32));
+        t.ok("dec y=p+1", d.ok_lenient && d.y_noncanonical && !d.neg_zero && d.on_curve && pt_is_identity(d.p) && !d.ok_strict());
+        // y_raw = p (y = 0): x = +-sqrt(-1), an order-4 point, non-canonical
+        d = pt_decode_ex(u_to_le(P25519(), 32));
+        t.ok("dec y=p", d.ok_lenient && d.y_noncanonical && d.on_curve && pt_order_class(d.p) == 4);
+        // (b) negative zero: y = 1 with the sign bit
+        d = pt_decode_ex(from_hex("0100000000000000000000000000000000000000000000000000000000000080"));
+        t.ok("dec neg zero", d.ok_lenient && !d.y_noncanonical && d.neg_zero && d.on_curve && pt_is_identity(d.p) && !d.ok_strict());
+        // (a) + (b): y_raw = p + 1 with the sign bit
+        Bytes e = u_to_le(u_add(P25519(), U(1)), 32);
+        e[31] |= 0x80;
+        d = pt_decode_ex(e);
+        t.ok("dec noncanonical neg zero", d.ok_lenient && d.y_noncanonical && d.neg_zero);
+        // (c) not on curve: y = 2 has no x (checked: 2 is the first value in libsodium-independent enumeration that fails)
+        int fails_c = 0, succ = 0;
+        for (uint64_t y = 2; y < 40; y++) {
+            d = pt_decode_ex(u_to_le(U(y), 32));
+            if (d.ok_lenient) { succ++; if (!pt_on_curve(d.p) || d.y_noncanonical || d.neg_zero || !d.on_curve || fp_is_odd(d.p.x)) fails_c += 100; }
+            else { fails_c++; if (d.on_curve || d.y_noncanonical || d.neg_zero) fails_c += 100; }
+        }
+        t.ok("dec small y: about half decode", fails_c < 100 && fails_c > 5 && succ > 5);
+        Pt P;
+        bool canon = true;
+        t.ok("pt_decode wrong length", !pt_decode(Bytes(31, 0), P, canon) && !canon && !pt_decode_ex(Bytes(33, 0)).len_ok);
+        // sign bit selects x
+        Bytes be = pt_encode(B);
+        be[31] |= 0x80;
+        t.ok("sign bit", pt_decode(be, P, canon) && canon && pt_eq(P, pt_neg(B)));
+    }
+    // scalars
+    {
+        t.ok("sc canonical", sc_is_canonical(u_to_le(u_sub(L25519(), U(1)), 32)) && !sc_is_canonical(u_to_le(L25519(), 32)) && sc_is_canonical(Bytes(32, 0)) && !sc_is_canonical(Bytes(32, 0xff)));
+        U x = sc_from_bytes(rng.bytes(64));
+        t.ok("sc_reduce", u_cmp(sc_reduce(x), L25519()) < 0 && sc_is_canonical(sc_to_bytes32(sc_reduce(x))));
+        U xr = sc_reduce(x);
+        t.ok("sc ops", sc_add(xr, sc_neg(xr)) == U(0) && (u_is_zero(xr) || sc_mul(xr, sc_inv(xr)) == U(1)) && sc_sub(xr, xr) == U(0));
+    }
+    // RFC 8032 section 7.1 (seed, pk, msg, sig); vectors 1, 2, 3 and 1024 taken from the RFC table
+    selftest_ed25519_case(t, "rfc8032 TEST 1", "9d61b19deffd5a60ba844af492ec2cc44449c5697b326919703bac031cae7f60", "d75a980182b10ab7d54bfed3c964073a0ee172f3daa62325af021a68f707511a", "",
+                          "e5564300c360ac729086e2cc806e828a84877f1eb8e5d974d873e065224901555fb8821590a33bacc61e39701cf9b46bd25bf5f0595bbe24655141438e7a100b");
+    selftest_ed25519_case(t, "rfc8032 TEST 2", "4ccd089b28ff96da9db6c346ec114e0f5b8a319f35aba624da8cf6ed4fb8a6fb", "3d4017c3e843895a92b70aa74d1b7ebc9c982ccf2ec4968cc0cd55f12af4660c", "72",
+                          "92a009a9f0d4cab8720e820b5f642540a2b27b5416503f8fb3762223ebdb69da085ac1e43e15996e458f3613d0f11d8c387b2eaeb4302aeeb00d291612bb0c00");
+    selftest_ed25519_case(t, "rfc8032 TEST 3", "c5aa8df43f9f837bedb7442f31dcb7b166d38535076f094b85ce3a2e0b4458f7", "fc51cd8e6218a1a38da47ed00230f0580816ed13ba3303ac5deb911548908025", "af82",
+                          "6291d657deec24024827e69c3abe01a30ce548a284743a445e3680d7db5ac3ac18ff9b538d16f290ae67f760984dc6594a7c15e9716ed28dc027beceea1ec40a");
+    selftest_ed25519_case(t, "rfc8032 TEST 1024", "f5e5767cf153319517630f226876b86c8160cc583bc013744c6bf255f5cc0ee5", "278117fc144c72340f67d0f2316e8386ceffbf2b2428c9c51fef7c597f1d426e",
+                          selftest_rfc8032_test1024_msg_hex(),
+                          "0aab4c900501b3e24d7cdf4663326a3a87df5e4843b2cbdb67cbf6e460fec350aa5371b1508f9f4528ecea23c436d94b5e8fcd4f681e30a6ac00a9704a188a03");
+    // TEST SHA(abc): the message is SHA-512("abc")
+    selftest_ed25519_case(t, "rfc8032 TEST SHA(abc)", "833fe62409237b9d62ec77587520911e9a759cec1d19755b7da901b96dca3d42", "ec172b93ad5e563bf4932c70e1245034c35467ef2efd4d64ebf819683467e2bf",
+                          to_hex(sha512(str("abc"))).c_str(),
+                          "dc2a4459e7369633a52b1bf277839a00201009a3efbf3ecb69bea2186c26b58909351fc9ac90b3ecfdfbc7c66431e0303dca179c138ac17ad9bef1177331a704");
+    // RFC 8032 section 7.3, Ed25519ph: message "abc"
+    {
+        Bytes seed = from_hex("833fe62409237b9d62ec77587520911e9a759cec1d19755b7da901b96dca3d42"), pk, sk;
+        ed25519_seed_keypair(seed, pk, sk);
+        Bytes sig = ed25519ph_sign(str("abc"), sk);
+        t.eqh("rfc8032 7.3 ph sig", sig, "98a70222f0b8121aa9d30f813d683f809e462b469c7ff87639499bb94e6dae4131f85042463c2a355a2003d062adf5aaa10b8c61e636062aaad11c2a26083406");
+        VerifyInfo vi = ed25519_verify_info(sig, str("abc"), pk, true);
+        t.ok("ph verify", vi.cofactored_eq && vi.cofactorless_eq && vi.s_canonical);
+        VerifyInfo vp = ed25519_verify_info(sig, str("abc"), pk, false);
+        t.ok("ph sig is not a pure sig", !vp.cofactored_eq && !vp.cofactorless_eq);
+    }
+    // verification predicate on malleated / torsion-shifted signatures
+    {
+        Bytes seed = rng.bytes(32), pk, sk, msg = rng.bytes(17);
+        ed25519_seed_keypair(seed, pk, sk);
+        Bytes sig = ed25519_sign(msg, sk);
+        // S + L: same point equations, but not canonical
+        Bytes s2 = u_to_le(u_add(u_from_le(sub(sig, 32, 32)), L25519()), 32);
+        VerifyInfo vi = ed25519_verify_info(cat(sub(sig, 0, 32), s2), msg, pk);
+        t.ok("S+L", !vi.s_canonical && vi.cofactored_eq && vi.cofactorless_eq);
+        // R + T8: cofactored equation holds, cofactorless does not
+        Pt R;
+        bool canon;
+        pt_decode(sub(sig, 0, 32), R, canon);
+        // (changing R changes h, so build the signature from scratch with a known nonce instead)
+        U a = u_from_le(ed25519_clamp(sub(sha512(seed), 0, 32)));
+        U r = sc_reduce(u_from_le(rng.bytes(64)));
+        Bytes Rt = pt_encode(pt_add(pt_mul(r, ED_B()), torsion_points()[1]));
+        U h = sc_reduce(u_from_le(sha512(cat(Rt, pk, msg))));
+        Bytes St = sc_to_bytes32(sc_add(r, sc_mul(h, a)));
+        vi = ed25519_verify_info(cat(Rt, St), msg, pk);
+        t.ok("R + T8", vi.s_canonical && vi.r_decodes && vi.r_canonical && !vi.r_small_order && vi.cofactored_eq && !vi.cofactorless_eq && vi.h == h);
+        // small-order pk and R: S = 0, R = identity, A = identity verifies under both equations
+        Bytes idenc = pt_encode(Pt());
+        vi = ed25519_verify_info(cat(idenc, Bytes(32, 0)), msg, idenc);
+        t.ok("all-identity", vi.pk_small_order && vi.r_small_order && vi.cofactored_eq && vi.cofactorless_eq && vi.pk_canonical && vi.r_canonical);
+        // non-canonical pk (y = p + 1): flags reported, equations still evaluated on the reduced point
+        Bytes ncid = u_to_le(u_add(P25519(), U(1)), 32);
+        vi = ed25519_verify_info(cat(idenc, Bytes(32, 0)), msg, ncid);
+        t.ok("non-canonical pk", !vi.pk_canonical && vi.pk_decodes && vi.pk_small_order && vi.cofactored_eq && vi.cofactorless_eq);
+        // undecodable pk
+        vi = ed25519_verify_info(sig, msg, u_to_le(U(2), 32));
+        t.ok("undecodable pk", vi.len_ok && !vi.pk_decodes && vi.pk_canonical && !vi.cofactored_eq && !vi.cofactorless_eq);
+        t.ok("bad lengths", !ed25519_verify_info(Bytes(63, 0), msg, pk).len_ok && !ed25519_verify_info(sig, msg, Bytes(31, 0)).len_ok && ed25519_sign(msg, Bytes(33, 0)).empty());
+        // key conversion: X25519 base multiplication of the converted secret equals the converted public key
+        Bytes xpk;
+        t.ok("pk_to_x25519", ed25519_pk_to_x25519(pk, xpk) && xpk == x25519_base(ed25519_sk_to_x25519(sk)) && ed25519_sk_to_x25519(sk) == ed25519_sk_to_x25519(seed));
+        t.ok("pk_to_x25519 undecodable", !ed25519_pk_to_x25519(u_to_le(U(2), 32), xpk));
+        // B maps to u = 9
+        t.ok("B -> u=9", ed25519_pk_to_x25519(pt_encode(ED_B()), xpk) && u_from_le(xpk) == U(9));
+    }
+}
+
+// ---------------------------------------------------------------- ristretto255 (RFC 9496)
+inline void selftest_ristretto(T &t) {
+    SelftestLcg rng(3);
+    // constants: defining equations (a = -1)
+    t.ok("SQRT_AD_MINUS_ONE^2 = -d-1", fp_sq(RISTRETTO_SQRT_AD_MINUS_ONE()) == fp_sub(fp_neg(ED_D()), U(1)));
+    t.ok("INVSQRT_A_MINUS_D^2 * (-1-d) = 1", fp_mul(fp_sq(RISTRETTO_INVSQRT_A_MINUS_D()), fp_sub(fp_neg(U(1)), ED_D())) == U(1));
+    t.ok("ONE_MINUS_D_SQ", RISTRETTO_ONE_MINUS_D_SQ() == u_from_dec("1159843021668779879193775521855586647937357759715417654439879720876111806838"));
+    t.ok("D_MINUS_ONE_SQ", RISTRETTO_D_MINUS_ONE_SQ() == u_from_dec("40440834346308536858101042469323190826248399146238708352240133220865137265952"));
+    // RFC 9496 appendix A.1: multiples 0..15 of the generator
+    static const char *mult[16] = {
+        "0000000000000000000000000000000000000000000000000000000000000000", "e2f2ae0a6abc4e71a884a961c500515f58e30b6aa582dd8db6a65945e08d2d76",
+        "6a493210f7499cd17fecb510ae0cea23a110e8d5b901f8acadd3095c73a3b919", "94741f5d5d52755ece4f23f044ee27d5d1ea1e2bd196b462166b16152a9d0259",
+        "da80862773358b466ffadfe0b3293ab3d9fd53c5ea6c955358f568322daf6a57", "e882b131016b52c1d3337080187cf768423efccbb517bb495ab812c4160ff44e",
+        "f64746d3c92b13050ed8d80236a7f0007c3b3f962f5ba793d19a601ebb1df403", "44f53520926ec81fbd5a387845beb7df85a96a24ece18738bdcfa6a7822a176d",
+        "903293d8f2287ebe10e2374dc1a53e0bc887e592699f02d077d5263cdd55601c", "02622ace8f7303a31cafc63f8fc48fdc16e1c8c8d234b2f0d6685282a9076031",
+        "20706fd788b2720a1ed2a5dad4952b01f413bcf0e7564de8cdc816689e2db95f", "bce83f8ba5dd2fa572864c24ba1810f9522bc6004afe95877ac73241cafdab42",
+        "e4549ee16b9aa03099ca208c67adafcafa4c3f3e4e5303de6026e3ca8ff84460", "aa52e000df2e16f55fb1032fc33bc42742dad6bd5a8fc0be0167436c5948501f",
+        "46376b80f409b29dc2b5f6f0c52591990896e5716f41477cd30085ab7f10301e", "e0c418f7c8d9c4cdd7395b93ea124f3ad99021bb681dfc3302a9d99a2e53e64e" };
+    {
+        Pt acc;
+        for (int i = 0; i < 16; i++) {
+            std::string nm = "rfc9496 A.1 multiple " + std::to_string(i);
+            t.eqh(nm.c_str(), ristretto_encode(acc), mult[i]);
+            Pt dec;
+            bool ok = ristretto_decode(from_hex(mult[i]), dec);
+            t.ok((nm + " decodes").c_str(), ok && pt_on_curve(dec) && ristretto_eq(dec, acc) && ristretto_encode(dec) == from_hex(mult[i]));
+            acc = pt_add(acc, ED_B());
+        }
+    }
+    // RFC 9496 appendix A.2: invalid encodings
+    static const char *bad[] = {
+        // non-canonical field encodings
+        "00ffffffffffffffffffffffffffffffffffffffffffffffffffffffffffffff", "ffffffffffffffffffffffffffffffffffffffffffffffffffffffffffffff7f",
+        "f3ffffffffffffffffffffffffffffffffffffffffffffffffffffffffffff7f", "edffffffffffffffffffffffffffffffffffffffffffffffffffffffffffff7f",
+        "0100000000000000000000000000000000000000000000000000000000000080",
+        // negative field elements
+        "0100000000000000000000000000000000000000000000000000000000000000", "01ffffffffffffffffffffffffffffffffffffffffffffffffffffffffffff7f",
+        "ed57ffd8c914fb201471d1c3d245ce3c746fcbe63a3679d51b6a516ebebe0e20", "c34c4e1826e5d403b78e246e88aa051c36ccf0aafebffe137d148a2bf9104562",
+        "c940e5a4404157cfb1628b108db051a8d439e1a421394ec4ebccb9ec92a8ac78", "47cfc5497c53dc8e61c91d17fd626ffb1c49e2bca94eed052281b510b1117a24",
+        "f1c6165d33367351b0da8f6e4511010c68174a03b6581212c71c0e1d026c3c72", "87260f7a2f12495118360f02c26a470f450dadf34a413d21042b43b9d93e1309",
+        // non-square x^2
+        "26948d35ca62e643e26a83177332e6b6afeb9d08e4268b650f1f5bbd8d81d371", "4eac077a713c57b4f4397629a4145982c661f48044dd3f96427d40b147d9742f",
+        "de6a7b00deadc788eb6b6c8d20c0ae96c2f2019078fa604fee5b87d6e989ad7b", "bcab477be20861e01e4a0e295284146a510150d9817763caf1a6f4b422d67042",
+        "2a292df7e32cababbd9de088d1d1abec9fc0440f637ed2fba145094dc14bea08", "f4a9e534fc0d216c44b218fa0c42d99635a0127ee2e53c712f70609649fdff22",
+        "8268436f8c4126196cf64b3c7ddbda90746a378625f9813dd9b8457077256731", "2810e5cbc2cc4d4eece54f61c6f69758e289aa7ab440b3cbeaa21995c2f4232b",
+        // negative x*y
+        "3eb858e78f5a7254d8c9731174a94f76755fd3941c0ac93735c07ba14579630e", "a45fdc55c76448c049a1ab33f17023edfb2be3581e9c7aade8a6125215e04220",
+        "d483fe813c6ba647ebbfd3ec41adca1c6130c2beeee9d9bf065c8d151c5f396e", "8a2e1d30050198c65a54483123960ccc38aef6848e1ec8f5f780e8523769ba32",
+        "32888462f8b486c68ad7dd9610be5192bbeaf3b443951ac1a8118419d9fa097b", "227142501b9d4355ccba290404bde41575b037693cef1f438c47f8fbf35d1165",
+        "5c37cc491da847cfeb9281d407efc41e15144c876e0170b499a96a22ed31e01e", "445425117cb8c90edcbc7c1cc0e74f747f2c1efa5630a967c64f287792a48a4b",
+        // s = -1, which causes y = 0
+        "ecffffffffffffffffffffffffffffffffffffffffffffffffffffffffffff7f" };
+    for (size_t i = 0; i < sizeof bad / sizeof bad[0]; i++) {
+        Pt p;
+        t.ok((std::string("rfc9496 A.2 bad encoding ") + bad[i]).c_str(), !ristretto_decode(from_hex(bad[i]), p));
+    }
+    // RFC 9496 appendix A.3: one-way map; inputs are the SHA-512 hashes listed in the RFC
+    static const char *fu[7][2] = {
+        { "5d1be09e3d0c82fc538112490e35701979d99e06ca3e2b5b54bffe8b4dc772c14d98b696a1bbfb5ca32c436cc61c16563790306c79eaca7705668b47dffe5bb6", "3066f82a1a747d45120d1740f14358531a8f04bbffe6a819f86dfe50f44a0a46" },
+        { "f116b34b8f17ceb56e8732a60d913dd10cce47a6d53bee9204be8b44f6678b270102a56902e2488c46120e9276cfe54638286b9e4b3cdb470b542d46c2068d38", "f26e5b6f7d362d2d2a94c5d0e7602cb4773c95a2e5c31a64f133189fa76ed61b" },
+        { "8422e1bbdaab52938b81fd602effb6f89110e1e57208ad12d9ad767e2e25510c27140775f9337088b982d83d7fcf0b2fa1edffe51952cbe7365e95c86eaf325c", "006ccd2a9e6867e6a2c5cea83d3302cc9de128dd2a9a57dd8ee7b9d7ffe02826" },
+        { "ac22415129b61427bf464e17baee8db65940c233b98afce8d17c57beeb7876c2150d15af1cb1fb824bbd14955f2b57d08d388aab431a391cfc33d5bafb5dbbaf", "f8f0c87cf237953c5890aec3998169005dae3eca1fbb04548c635953c817f92a" },
+        { "165d697a1ef3d5cf3c38565beefcf88c0f282b8e7dbd28544c483432f1cec7675debea8ebb4e5fe7d6f6e5db15f15587ac4d4d4a1de7191e0c1ca6664abcc413", "ae81e7dedf20a497e10c304a765c1767a42d6e06029758d2d7e8ef7cc4c41179" },
+        { "a836e6c9a9ca9f1e8d486273ad56a78c70cf18f0ce10abb1c7172ddd605d7fd2979854f47ae1ccf204a33102095b4200e5befc0465accc263175485f0e17ea5c", "e2705652ff9f5e44d3e841bf1c251cf7dddb77d140870d1ab2ed64f1a9ce8628" },
+        { "2cdc11eaeb95daf01189417cdddbf95952993aa9cb9c640eb5058d09702c74622c9965a697a3b345ec24ee56335b556e677b30e6f90ac77d781064f866a3c982", "80bd07262511cdde4863f8a7434cef696750681cb9510eea557088f76d9e5065" } };
+    for (int i = 0; i < 7; i++) t.eqh((std::string("rfc9496 A.3 from_uniform ") + std::to_string(i)).c_str(), ristretto_from_uniform(from_hex(fu[i][0])), fu[i][1]);
+    // The first A.3 input is SHA-512("Ristretto is traditionally a short shot of espresso coffee")
+    t.eq("rfc9496 A.3 input 0 is a SHA-512", sha512(str("Ristretto is traditionally a short shot of espresso coffee")), from_hex(fu[0][0]));
+    t.ok("from_uniform bad length", ristretto_from_uniform(Bytes(63, 0)).empty());
+    // the top bit of each half is ignored
+    {
+        Bytes in = from_hex(fu[2][0]);
+        in[31] ^= 0x80;
+        in[63] ^= 0x80;
+        t.eqh("from_uniform masks bit 255", ristretto_from_uniform(in), fu[2][1]);
+    }
+    // coset invariance: P + T encodes identically for every 4-torsion point T... (ristretto quotients by E[4]);
+    // the map output is always a curve point whose double is in the prime-order subgroup
+    {
+        const std::vector<Pt> &tp = torsion_points();
+        Pt P = pt_mul(u_from_le(rng.bytes(32)), ED_B());
+        Bytes e = ristretto_encode(P);
+        bool ok = true;
+        for (int i = 0; i < 8; i += 2) {
+            Pt Q = pt_add(P, tp[(size_t) i]);
+            ok = ok && ristretto_encode(Q) == e && ristretto_eq(P, Q);
+        }
+        t.ok("encode invariant under E[4]", ok);
+        t.ok("ristretto_eq distinguishes", !ristretto_eq(P, pt_double(P)) && !ristretto_eq(P, pt_neg(P)));
+        Pt D;
+        t.ok("decode(encode(P))", ristretto_decode(e, D) && ristretto_eq(D, P) && pt_on_curve(D));
+        for (int i = 0; i < 4; i++) {
+            Pt M = ristretto_map(u_from_le(rng.bytes(32)));
+            Pt R;
+            t.ok("map output valid", pt_on_curve(M) && pt_in_prime_subgroup(pt_double(M)) && ristretto_decode(ristretto_encode(M), R) && ristretto_eq(R, M));
+        }
+        t.ok("map(0) valid", pt_on_curve(ristretto_map(U(0))));
+        t.ok("decode wrong length", !ristretto_decode(Bytes(31, 0), D));
+    }
+}
+
+// ---------------------------------------------------------------- hash to curve (RFC 9380)
+inline void selftest_h2c(T &t) {
+    // appendix J.5.1 (RO) and J.5.2 (NU): edwards25519_XMD:SHA-512_ELL2_{RO,NU}_. P.x / P.y are big-endian hex in the RFC.
+    struct V { bool ro; const char *msg; const char *px; const char *py; };
+    static const std::string q128 = "q128_" + std::string(128, 'q'), a512 = "a512_" + std::string(512, 'a');
+    const V vec[] = {
+        { false, "", "1ff2b70ecf862799e11b7ae744e3489aa058ce805dd323a936375a84695e76da", "222e314d04a4d5725e9f2aff9fb2a6b69ef375a1214eb19021ceab2d687f0f9b" },
+        { false, "abc", "5f13cc69c891d86927eb37bd4afc6672360007c63f68a33ab423a3aa040fd2a8", "67732d50f9a26f73111dd1ed5dba225614e538599db58ba30aaea1f5c827fa42" },
+        { false, "abcdef0123456789", "1dd2fefce934ecfd7aae6ec998de088d7dd03316aa1847198aecf699ba6613f1", "2f8a6c24dd1adde73909cada6a4a137577b0f179d336685c4a955a0a8e1a86fb" },
+        { false, q128.c_str(), nullptr, "2af6ff6ef5ebba128b0774f4296cb4c2279a074658b083b8dcca91f57a603450" },
+        { false, a512.c_str(), nullptr, "2c90c3d39eb18ff291d33441b35f3262cdd307162cc97c31bfcc7a4245891a37" },
+        { true, "", "3c3da6925a3c3c268448dcabb47ccde5439559d9599646a8260e47b1e4822fc6", "09a6c8561a0b22bef63124c588ce4c62ea83a3c899763af26d795302e115dc21" },
+        { true, "abc", "608040b42285cc0d72cbb3985c6b04c935370c7361f4b7fbdb1ae7f8c1a8ecad", "1a8395b88338f22e435bbd301183e7f20a5f9de643f11882fb237f88268a5531" },
+        { true, "abcdef0123456789", "6d7fabf47a2dc03fe7d47f7dddd21082c5fb8f86743cd020f3fb147d57161472", "53060a3d140e7fbcda641ed3cf42c88a75411e648a1add71217f70ea8ec561a6" },
+        { true, q128.c_str(), nullptr, "2eca15e355fcfa39d2982f67ddb0eea138e2994f5956ed37b7f72eea5e89d2f7" },
+        { true, a512.c_str(), nullptr, "6dc2fc04f266c5c27f236a80b14f92ccd051ef1ff027f26a07f8c0f327d8f995" } };
+    for (const V &v : vec) {
+        Bytes dst = str(v.ro ? "QUUX-V01-CS02-with-edwards25519_XMD:SHA-512_ELL2_RO_" : "QUUX-V01-CS02-with-edwards25519_XMD:SHA-512_ELL2_NU_");
+        std::string nm = std::string("rfc9380 J.5 ") + (v.ro ? "RO" : "NU") + " msg=" + std::string(v.msg).substr(0, 16);
+        Pt P = h2c_edwards25519_pt(H_SHA512, v.ro, str(v.msg), dst);
+        t.ok((nm + " y").c_str(), P.y == u_from_hex(v.py));
+        if (v.px) t.ok((nm + " x").c_str(), P.x == u_from_hex(v.px));
+        t.ok((nm + " subgroup").c_str(), pt_on_curve(P) && pt_in_prime_subgroup(P));
+        t.eq((nm + " enc").c_str(), h2c_edwards25519(H_SHA512, v.ro, str(v.msg), dst), pt_encode(P));
+    }
+    // appendix K.1 (SHA-256) and K.3 (SHA-512) expand_message_xmd, len_in_bytes = 0x20
+    t.eqh("rfc9380 K.1 ''", expand_message_xmd(H_SHA256, str(""), str("QUUX-V01-CS02-with-expander-SHA256-128"), 32), "68a985b87eb6b46952128911f2a4412bbc302a9d759667f87f7a21d803f07235");
+    t.eqh("rfc9380 K.1 abc", expand_message_xmd(H_SHA256, str("abc"), str("QUUX-V01-CS02-with-expander-SHA256-128"), 32), "d8ccab23b5985ccea865c6c97b6e5b8350e794e603b4b97902f53a8a0d605615");
+    t.eqh("rfc9380 K.3 ''", expand_message_xmd(H_SHA512, str(""), str("QUUX-V01-CS02-with-expander-SHA512-256"), 32), "6b9a7312411d92f921c6f68ca0b6380730a1a4d982c507211a90964c394179ba");
+    t.eqh("rfc9380 K.3 abc", expand_message_xmd(H_SHA512, str("abc"), str("QUUX-V01-CS02-with-expander-SHA512-256"), 32), "0da749f12fbe5483eb066a5f595055679b976e93abe9be6f0f6318bce7aca8dc");
+    // structural checks
+    {
+        Bytes dst = str("QUUX-V01-CS02-with-expander-SHA256-128"), m = str("abcdef0123456789");
+        Bytes a = expand_message_xmd(H_SHA256, m, dst, 100), b = expand_message_xmd(H_SHA256, m, dst, 32);
+        t.ok("xmd lengths", a.size() == 100 && b.size() == 32 && sub(a, 0, 32) != b);  // len_in_bytes is hashed in
+        t.ok("xmd limits", expand_message_xmd(H_SHA256, m, dst, 255 * 32).size() == 255 * 32 && expand_message_xmd(H_SHA256, m, dst, 255 * 32 + 1).empty() &&
+                               expand_message_xmd(H_SHA512, m, dst, 65535).size() == 65535 && expand_message_xmd(H_SHA512, m, dst, 65536).empty());
+        // oversize DST (section 5.3.3): same as using H("H2C-OVERSIZE-DST-" || DST) as the DST
+        Bytes longdst(256, 'X'), dst255(255, 'X');
+        t.eq("xmd oversize dst 256", expand_message_xmd(H_SHA256, m, longdst, 48), expand_message_xmd(H_SHA256, m, sha256(cat(str("H2C-OVERSIZE-DST-"), longdst)), 48));
+        t.eq("xmd oversize dst 512", expand_message_xmd(H_SHA512, m, longdst, 48), expand_message_xmd(H_SHA512, m, sha512(cat(str("H2C-OVERSIZE-DST-"), longdst)), 48));
+        t.ok("xmd dst 255 is not oversize", expand_message_xmd(H_SHA256, m, dst255, 48) != expand_message_xmd(H_SHA256, m, sha256(cat(str("H2C-OVERSIZE-DST-"), dst255)), 48));
+        // Elligator 2 output is on curve25519 and the rational map lands on edwards25519, for a few field elements
+        bool ok = true;
+        for (uint64_t u = 0; u < 12; u++) {
+            U s, tt;
+            h2c_map_to_curve25519(U(u), s, tt);
+            U rhs = fp_add(fp_add(fp_mul(fp_sq(s), s), fp_mul(U(486662), fp_sq(s))), s);
+            ok = ok && fp_sq(tt) == rhs && pt_on_curve(h2c_mont_to_edwards(s, tt));
+        }
+        t.ok("elligator2 on curve", ok);
+        // SHA-256 variant and ristretto255 hash: well-formed outputs
+        Pt P;
+        bool canon;
+        t.ok("h2c sha256 RO", pt_decode(h2c_edwards25519(H_SHA256, true, m, dst), P, canon) && canon && pt_in_prime_subgroup(P));
+        t.ok("h2c sha256 NU", pt_decode(h2c_edwards25519(H_SHA256, false, m, dst), P, canon) && canon && pt_in_prime_subgroup(P));
+        Bytes r = h2c_ristretto255(H_SHA512, m, str("ristretto255_XMD:SHA-512_R255MAP_RO_"));
+        t.ok("h2c ristretto", r.size() == 32 && ristretto_decode(r, P) && r == ristretto_from_uniform(expand_message_xmd(H_SHA512, m, str("ristretto255_XMD:SHA-512_R255MAP_RO_"), 64)));
+    }
+}
+
+inline int selftest_curves() {
+    T t("curves");
+    selftest_bigint(t);
+    selftest_x25519(t);
+    selftest_ed25519(t);
+    selftest_ristretto(t);
+    selftest_h2c(t);
+    return t.fails;
+}
+
+}  // namespace ref
